@@ -503,12 +503,15 @@ Definition base_at (p : list name) : option bnode :=
    parent is the current one), first child with the right final name *)
 Definition all_children (t : tt) (p : tid) : list tid :=
   filter (fun x => onat_eqb (final_parent t x) (Some p)) (seq 0 (next_id t)).
-Fixpoint path2tid (t : tt) (segs : list name) (cur : tid) : option tid :=
+Inductive lookup := LNone | LAmbiguous | LOne (y : tid).
+(* more than one child with the name: the answer of the code depends on the iteration order of a set *)
+Fixpoint path2tid (t : tt) (segs : list name) (cur : tid) : lookup :=
   match segs with
-  | [] => Some cur
-  | s :: segs' => match find (fun c => bytes_eqb (final_name t c) s) (all_children t cur) with
-                  | Some c => path2tid t segs' c
-                  | None => None
+  | [] => LOne cur
+  | s :: segs' => match filter (fun c => bytes_eqb (final_name t c) s) (all_children t cur) with
+                  | [] => LNone
+                  | [c] => path2tid t segs' c
+                  | _ => LAmbiguous
                   end
   end.
 
@@ -544,12 +547,22 @@ Definition preview_content (t : tt) (y : tid) (p : list name) : list Z :=
        | None => unreadable
        end.
 (* PreviewTree.is_executable(path) *)
-Definition preview_exec (t : tt) (y : tid) (p : list name) : bool :=
+Fixpoint proper_prefixes {A} (l : list A) : list (list A) :=
+  match l with
+  | [] => []
+  | x :: l' => [] :: map (cons x) (proper_prefixes l')
+  end.
+(* 0 / 1, or 2: NotADirectoryError escapes (a proper prefix of the path is a file of the base tree) *)
+Definition preview_exec (t : tt) (y : tid) (p : list name) : Z :=
   match aget y (new_exec t) with
-  | Some b => b
+  | Some b => if b then 1%Z else 0%Z
   | None => match base_at p with
-            | Some b => match b_kind b with KFile => b_exec b | KDir => false end
-            | None => false
+            | Some b => match b_kind b with KFile => if b_exec b then 1%Z else 0%Z | KDir => 0%Z end
+            | None => if existsb (fun q => match base_at q with
+                                           | Some b => kind_eqb (b_kind b) KFile
+                                           | None => false
+                                           end) (proper_prefixes p)
+                      then 2%Z else 0%Z
             end
   end.
 
@@ -559,8 +572,8 @@ Definition zkind (k : option kind) : Z :=
   match k with None => 0 | Some KFile => 1 | Some KDir => 2 end%Z.
 Definition zfid (f : option fid) : Z := match f with None => 0%Z | Some f' => Z.of_nat (S f') end.
 Definition zbool (b : bool) : Z := if b then 1%Z else 0%Z.
-Definition mkrow (p : list name) (k : option kind) (e : bool) (f : option fid) (c : list Z) : list Z :=
-  zpath p ++ [(-1)%Z; zkind k; zbool e; zfid f; (-1)%Z] ++ c.
+Definition mkrow (p : list name) (k : option kind) (e : Z) (f : option fid) (c : list Z) : list Z :=
+  zpath p ++ [(-1)%Z; zkind k; e; zfid f; (-1)%Z] ++ c.
 
 (* the paths the preview tree lists: iter_entries_by_dir (versioned) and extras() *)
 Definition base_extra (x : tid) : bool :=
@@ -575,13 +588,14 @@ Definition preview_paths (t : tt) : list (list name) :=
                      end) (seq 0 (next_id t)).
 Definition preview_row (t : tt) (p : list name) : list (list Z) :=
   match path2tid t p 0 with
-  | None => []
-  | Some y =>
+  | LNone => []
+  | LAmbiguous => [zpath p ++ [(-1)%Z; (-3)%Z]]
+  | LOne y =>
       let k := final_kind t y in
       let f := final_file_id t y in
       match k, f with
       | None, None => []
-      | _, _ => [mkrow p k (match k with Some KFile => preview_exec t y p | _ => false end) f
+      | _, _ => [mkrow p k (match k with Some KFile => preview_exec t y p | _ => 0%Z end) f
                        (match k with Some KFile => preview_content t y p | _ => [] end)]
       end
   end.
@@ -656,13 +670,6 @@ Definition late_failure (t : tt) : bool :=
                     && match tree_parent y with Some p => memn p (removed_contents t) | None => false end)
           (seq 0 (List.length base)).
 
-(* _generate_inventory_delta looks up the tree path of every member of _removed_id: KeyError for a trans
-   id that has none (raised before anything is touched) *)
-Definition delta_fails (t : tt) : bool := existsb (fun x => negb (is_tree x)) (removed_id t).
-Definition apply_status (t : tt) : option string :=
-  if delta_fails t then Some "KeyError"%string
-  else if late_failure t then Some "OSError"%string else None.
-
 (* the inventory *)
 Record ient := mkI { i_parent : option fid; i_name : name; i_kind : kind }.
 Definition base_inv_entry (f : fid) : option ient :=
@@ -715,11 +722,42 @@ Definition applied_inv_entry (t : tt) (f : fid) : option ient :=
 Definition all_fids (t : tt) : list fid :=
   flat_map (fun x => match tree_file_id x with Some f => [f] | None => [] end) (seq 0 (List.length base))
   ++ map snd (new_id t).
+(* apply_inventory_delta refuses a result in which an entry has no directory parent or two entries
+   share parent and name (InconsistentDelta; raised after the files were moved) *)
+Definition ient_sibling_eqb (a b : ient) : bool :=
+  onat_eqb (i_parent a) (i_parent b) && bytes_eqb (i_name a) (i_name b).
+Definition inv_inconsistent (t : tt) : bool :=
+  existsb (fun f => match applied_inv_entry t f with
+                    | None => false
+                    | Some e =>
+                        (match i_parent e with
+                         | None => false
+                         | Some g => match applied_inv_entry t g with
+                                     | Some pe => negb (kind_eqb (i_kind pe) KDir)
+                                     | None => true
+                                     end
+                         end)
+                        || existsb (fun f' => negb (Nat.eqb f f')
+                                              && match applied_inv_entry t f' with
+                                                 | Some e' => ient_sibling_eqb e e'
+                                                 | None => false
+                                                 end) (all_fids t)
+                    end) (all_fids t).
+Definition inv_after (t : tt) (f : fid) : option ient :=
+  if inv_inconsistent t then base_inv_entry f else applied_inv_entry t f.
 Definition inv_path (t : tt) (f : fid) : option (list name) :=
-  path_via (fun g => match applied_inv_entry t g with
+  path_via (fun g => match inv_after t g with
                      | Some e => Some (i_parent e, i_name e)
                      | None => None
                      end) (S (List.length (all_fids t))) f.
+
+(* _generate_inventory_delta looks up the tree path of every member of _removed_id: KeyError for a trans
+   id that has none (raised before anything is touched) *)
+Definition delta_fails (t : tt) : bool := existsb (fun x => negb (is_tree x)) (removed_id t).
+Definition apply_status (t : tt) : option string :=
+  if delta_fails t then Some "KeyError"%string
+  else if inv_inconsistent t then Some "InconsistentDelta"%string
+  else if late_failure t then Some "OSError"%string else None.
 
 (* the working tree after apply: every disk node and every inventory entry, joined by path *)
 Definition applied_listing (t : tt) : list (list Z) :=
@@ -732,12 +770,12 @@ Definition applied_listing (t : tt) : list (list Z) :=
   let fid_at p := option_map snd (find (fun pf => path_eqb (fst pf) p) inv) in
   let disk_rows := map (fun pn => let '(p, n) := pn in
                                   let k := node_kind t n in
-                                  mkrow p k (match k with Some KFile => node_exec t n | _ => false end)
+                                  mkrow p k (match k with Some KFile => zbool (node_exec t n) | _ => 0%Z end)
                                         (fid_at p)
                                         (match k with Some KFile => map Z.of_N (node_content t n) | _ => [] end))
                        disk in
   let inv_rows := flat_map (fun pf => if existsb (fun pn => path_eqb (fst pn) (fst pf)) disk then []
-                                      else [mkrow (fst pf) None false (Some (snd pf)) []]) inv in
+                                      else [mkrow (fst pf) None 0%Z (Some (snd pf)) []]) inv in
   dedup_rows (sort_by (fun r => r) (disk_rows ++ inv_rows)).
 
 (* ---- observation *)
